@@ -291,6 +291,60 @@ class Function:
                 dq.append(s)
         return seen
 
+    # ---- point graph: node (b,i) = "about to execute root i of block b" ------------
+    def flow(self, starts, cut_roots=(), cut_edges=(), cut_blocks=()):
+        """nodes reachable from the start nodes; executing a root in cut_roots, taking a
+        CFG edge in cut_edges or entering a block in cut_blocks is forbidden.
+        (b, len(el)) is the end of block b; the start 'after root (b,i)' is (b,i+1)."""
+        cut_roots = set(cut_roots)
+        cut_edges = set(cut_edges)
+        cut_blocks = set(cut_blocks)
+        seen = set()
+        dq = deque()
+        for n in starts:
+            if n not in seen and n[0] not in cut_blocks:
+                seen.add(n)
+                dq.append(n)
+        while dq:
+            b, i = dq.popleft()
+            nel = len(self.blocks[b]["el"])
+            if i < nel:
+                if (b, i) in cut_roots:
+                    continue
+                nxt = [(b, i + 1)]
+            else:
+                nxt = [(s, 0) for s in self.succs(b) if (b, s) not in cut_edges and s not in cut_blocks]
+            for n in nxt:
+                if n not in seen:
+                    seen.add(n)
+                    dq.append(n)
+        return seen
+
+    def entry_node(self):
+        return (self.entry, 0)
+
+    def exit_node(self):
+        return (self.exit, 0)
+
+    def find_roots(self, pred):
+        """[(b,i)] of roots containing a node satisfying pred"""
+        out = []
+        for b, i, r in self.roots():
+            if any(pred(x) for x in walk(r)):
+                out.append((b, i))
+        return out
+
+    def call_roots(self, names):
+        return self.find_roots(lambda x: is_call(x, names))
+
+    def must_pass(self, via_roots=(), via_edges=(), starts=None, targets=None):
+        """True iff every path from starts (default entry) to targets (default exit)
+        executes a root in via_roots or takes an edge in via_edges."""
+        starts = starts if starts is not None else [self.entry_node()]
+        targets = targets if targets is not None else [self.exit_node()]
+        reach = self.flow(starts, cut_roots=via_roots, cut_edges=via_edges)
+        return not any(t in reach for t in targets)
+
     def reaches_exit_blocks(self):
         return self.preds().get(self.exit, [])
 
